@@ -37,6 +37,10 @@ def run(repo, run, tier):
     balance_rule(repo, run, "C06.5", want="all")
     from .c09 import removal_index
     removal_index(repo, run, "C06.7")
+    # array queries are answered through the vectorised bisection over the step end times: it has to return, for every query of every dtype, the first
+    # end time not smaller than the query (a table cast to the dtype of integer queries truncates the end times)
+    from .c17 import bisection_vec
+    bisection_vec(repo, run, tier, rule_id="C06.14")
 
 
 # ------------------------------------------------------------------------------------------------
@@ -274,8 +278,8 @@ def _keyed_reuse(repo, run, rid, owner):
                                                "path of step() that stores final_rhs", text="cache keys of final_rhs")
 
 # ------------------------------------------------------------------------------------------------
-def containers(repo, run):
-    rid = run.rule("C06.4", "t_eval and y_interpolants are updated in lock-step (same operation, same position) in add_/remove_interpolant; the two "
+def containers(repo, run, rule_id="C06.4", position_only=False):
+    rid = run.rule(rule_id, "t_eval and y_interpolants are updated in lock-step (same operation, same position) in add_/remove_interpolant; the two "
                             "branches of the direction test are mirror images; an insert at the front of the ascending t_eval is guarded by a comparison "
                             "with its FIRST element, an append by a comparison with its LAST", floor=4)
     add = repo.get(DS, "DenseOutput.add_interpolant")
@@ -296,7 +300,7 @@ def containers(repo, run):
     ok = d.get("t_eval") == d.get("y_interpolants") and d.get("t_eval") is not None and d["t_eval"][0] == "pop"
     run.judged(rid, "remove_interpolant: %s" % d, ok=ok)
     if not ok:
-        run.report("C06.4", DS, rem, "remove_interpolant does not pop the same position from t_eval and y_interpolants", text="remove_interpolant pairing")
+        run.report(rule_id, DS, rem, "remove_interpolant does not pop the same position from t_eval and y_interpolants", text="remove_interpolant pairing")
     # add: find the if with insert/append
     ifs = [st for st in ast.walk(add) if isinstance(st, ast.If) and ops(st) and not any(isinstance(x, ast.If) and ops(x) for b in (st.body + st.orelse) for x in ast.walk(b))]
     if not ifs:
@@ -308,7 +312,7 @@ def containers(repo, run):
         ok = da.get("t_eval") == da.get("y_interpolants") and da.get("t_eval") is not None
         run.judged(rid, "add_interpolant %s branch: %s" % (label, da), ok=ok)
         if not ok:
-            run.report("C06.4", DS, blk[0] if blk else iff, "the %s branch of add_interpolant does not apply the same operation at the same position to t_eval and "
+            run.report(rule_id, DS, blk[0] if blk else iff, "the %s branch of add_interpolant does not apply the same operation at the same position to t_eval and "
                                                             "y_interpolants: times and pieces fall out of step" % label, text="add_interpolant %s branch pairing" % label)
     b = {a: (op, pos) for st in iff.body for (a, op, pos, _) in ops(st)}
     e = {a: (op, pos) for st in iff.orelse for (a, op, pos, _) in ops(st)}
@@ -316,7 +320,7 @@ def containers(repo, run):
     okm = b.get("t_eval") in mirror and mirror[b["t_eval"]] == e.get("t_eval")
     run.judged(rid, "branches mirror each other: %s vs %s" % (b.get("t_eval"), e.get("t_eval")), ok=okm)
     if not okm:
-        run.report("C06.4", DS, iff, "the two branches of the direction test are not insert(0)/append mirror images", text="add_interpolant mirror branches")
+        run.report(rule_id, DS, iff, "the two branches of the direction test are not insert(0)/append mirror images", text="add_interpolant mirror branches")
     # sorted-insert precondition
     test = iff.test
     front_is_body = b.get("t_eval") == ("insert", "0")
@@ -325,9 +329,20 @@ def containers(repo, run):
     oks = bool(refs) and ((front_is_body and want_front in refs) or (not front_is_body and want_front in refs)) and "-1" in refs + ["-1" if len(refs) > 1 else ""]
     # simpler statement: the front insertion must be decided by t_eval[0]
     oks = want_front in refs
+    if position_only:
+        # the weaker, history-free necessary condition: WHERE a piece goes in the ascending list must depend on the times already stored (the same new piece
+        # belongs at the front of one stored list and at the back of another); a decision from the piece's own direction alone cannot keep the list sorted
+        oks = bool(refs)
+        run.judged(rid, "insertion position decided by comparison with stored end times %s (test: %s)" % (refs, src(test)), ok=oks)
+        if not oks:
+            run.report(rule_id, DS, test, "the position at which a new piece is stored (front or back of the ascending list of step end times) is decided by `%s`, which reads none "
+                       "of the stored end times: after a run in the other direction (pieces kept from a backward run, then a forward call) the list is no longer sorted, the "
+                       "event search evaluates the event functions on the wrong piece (extrapolated far outside its step) and crossings in the first steps are not seen" % src(test),
+                       text="insertion position decided by `%s`" % src(test))
+        return
     run.judged(rid, "front insertion decided by comparison with t_eval[%s] (test: %s)" % (refs, src(test)), ok=oks)
     if not oks:
-        run.report("C06.4", DS, test, "the decision to insert at the FRONT of the ascending t_eval compares the new time with element [%s] only: a time that is smaller than "
+        run.report(rule_id, DS, test, "the decision to insert at the FRONT of the ascending t_eval compares the new time with element [%s] only: a time that is smaller than "
                                       "the last element but larger than the first is inserted at the front and t_eval (which the lookup bisects) is no longer sorted" % ", ".join(refs),
                    text="front insertion guarded by `%s`" % src(test))
 
